@@ -5511,6 +5511,7 @@ class SkipTo(ParseElementEnhance):
     def ignore(self, expr):
         super().ignore(expr)
         self._update_ignorer()
+        return self
 
     def parseImpl(self, instring, loc, do_actions=True):
         startloc = loc
